@@ -53,6 +53,7 @@ type c16Job struct {
 var c16AttrAlphabet = []c16Attr{
 	{"astr", "str", "hello world"}, {"aint", "int", int64(42)}, {"afloat", "float", 2.5}, {"abool", "bool", true},
 	{"anest", "nested", map[string]interface{}{"k": "v"}}, {"alist", "list", []interface{}{"p", "q"}}, {"aneg", "int", int64(-7)},
+	{"abig", "int", int64(9007199254740993)}, // not representable as a float64
 }
 
 // the carried instant: 2023-11-14T22:15:23.456Z
@@ -69,7 +70,7 @@ func c16TimesFor(p string) []string {
 	case "loki-proto", "loki-json":
 		return []string{"ns"}
 	case "otlp-logs":
-		return []string{"ns", "absent"}
+		return []string{"ns", "absent", "ns+observed"} // the last: the collector's observed time is set too, six minutes later
 	case "otlp-traces", "otlp-metrics":
 		return []string{"ns"} // a span without start time / a datapoint without time is not a meaningful input
 	case "otsdb":
@@ -287,6 +288,9 @@ func c16Send(w *kernel.Worker, j *c16Job, marker string) (*c16Sent, error) {
 			ScopeLogs: []*logpb.ScopeLogs{{Scope: &commonpb.InstrumentationScope{Name: "sc", Attributes: []*commonpb.KeyValue{{Key: "scopeattr", Value: anyValue("sv")}}},
 				LogRecords: []*logpb.LogRecord{{TimeUnixNano: nano, SeverityText: "WARN", SeverityNumber: 13, Body: anyValue("body of " + marker),
 					Attributes: kvs(j.Attrs, marker), TraceId: traceID, SpanId: spanID}}}}}}}
+		if j.Time == "ns+observed" {
+			req.ResourceLogs[0].ScopeLogs[0].LogRecords[0].ObservedTimeUnixNano = nano + 360_456_000_000
+		}
 		if j.Companions {
 			cr := func(tag string) *logpb.LogRecord {
 				return &logpb.LogRecord{TimeUnixNano: nano, SeverityText: "INFO", Body: anyValue("companion " + tag),
@@ -524,6 +528,9 @@ func c16Run(w *kernel.Worker, j *c16Job, rep *kernel.Report) (*Fail, error) {
 		}
 		if !found {
 			kind := fmt.Sprintf("%T", want)
+			if i, ok := want.(int64); ok && (i > 1<<53 || i < -(1<<53)) {
+				kind = "int64-beyond-2^53"
+			}
 			if near == "" {
 				fs.Add("C16/field-lost/"+j.Protocol+"/"+kind, ctx+fmt.Sprintf(": logical field %s=%v is not in the stored event %s", path, want, jstr(rec)))
 			} else {
@@ -639,6 +646,12 @@ func c16Normalize(j *c16Job) {
 		if a.Kind == "int" {
 			if f, ok := a.Val.(float64); ok {
 				a.Val = int64(f)
+				// beyond 2^53 the round trip through float64 is lossy: take the alphabet's value of that key
+				for _, x := range c16AttrAlphabet {
+					if x.Key == a.Key {
+						a.Val = x.Val
+					}
+				}
 			}
 		}
 	}
